@@ -35,6 +35,8 @@ pub struct RustDocument {
     /// components that are being converted ahead of their declaration (forward references); used to stop
     /// a component that refers to itself from being converted without end
     pub(crate) resolving: Vec<(String, Wanted)>,
+    /// components of the current file that were already converted ahead of their declaration
+    pub(crate) forward_nodes: HashMap<(String, Wanted), Rc<RustNode>>,
 }
 
 impl RustDocument {
@@ -85,6 +87,7 @@ impl RustDocument {
             soap_bindings: Vec::new(),
             soap_services: Vec::new(),
             resolving: Vec::new(),
+            forward_nodes: HashMap::new(),
         }
     }
 
@@ -226,10 +229,22 @@ impl RustDocument {
             return Some(rust_node.clone());
         }
 
+        // a forward reference: convert the component once, however often it is referred to before its declaration
+        let key = (xml_name.to_string(), wanted);
+        if let Some(known) = self.forward_nodes.get(&key) {
+            #[cfg(feature = "verif")]
+            verif_guard.hit("memo", known);
+            return Some(known.clone());
+        }
+
         let alt_node = try_to_find_node_by_xml_name_in_xml_doc(start_node, xml_name, namespace, self, wanted).ok()?;
         #[cfg(feature = "verif")]
         verif_guard.hit("tree", &alt_node);
-        Some(alt_node.into())
+        let alt_node: Rc<RustNode> = alt_node.into();
+        if !self.resolving.contains(&key) {
+            self.forward_nodes.insert(key, alt_node.clone());
+        }
+        Some(alt_node)
     }
 
     pub fn find_message_by_xml_name(&self, xml_name: &str, _namespace: Option<&Namespace>) -> Option<&Rc<SoapMessage>> {
@@ -248,7 +263,7 @@ impl RustDocument {
 /// The kind of global component a reference is looking for. A type and a global element (or a local
 /// element, an attribute, a message part ...) may carry the same name; a reference only ever denotes a
 /// component of its own kind.
-#[derive(Clone, Copy, PartialEq, Debug)]
+#[derive(Clone, Copy, PartialEq, Eq, Hash, Debug)]
 pub enum Wanted {
     /// a complex type, simple type or group (`base`, `type`, group `ref`)
     Type,
